@@ -54,7 +54,7 @@ def mutants(name, text, rnd, k):
     i = rnd.randrange(len(lines))
     out.append((f"{name}:nonascii-comment", lines[:i] + [lines[i] + " // café ☃ \U0001F600"] + lines[i + 1:], 1, 0))
     for _ in range(k):
-        kind = rnd.choice(["trunc", "trunc", "plant-at", "plant-semi", "dup", "del", "nonascii-ident", "nonascii-eof"])
+        kind = rnd.choice(["trunc", "trunc", "plant-at", "plant-semi", "plant-banner", "dup", "del", "nonascii-ident", "nonascii-eof"])
         ti = rnd.randrange(len(toks))
         li, a, b = toks[ti]
         if kind == "trunc":
@@ -65,6 +65,13 @@ def mutants(name, text, rnd, k):
             # an invalid token: the first error is at this position
             new = lines[:li] + [lines[li][:a] + "@ " + lines[li][a:]] + lines[li + 1:]
             out.append((f"{name}:at@{li+1}:{a}", new, 0, li + 1))
+        elif kind == "plant-banner":
+            # the same planted token below a comment banner of multi-byte characters (byte offsets and
+            # character offsets of everything after the banner differ by dozens of positions)
+            banner = "// " + "\u2500" * rnd.randint(8, 40) + " caf\u00e9 \u2603"
+            at = rnd.randint(0, li)
+            new = lines[:at] + [banner] + lines[at:li] + [lines[li][:a] + "@ " + lines[li][a:]] + lines[li + 1:]
+            out.append((f"{name}:banner@{li+2}:{a}", new, 0, li + 2))
         elif kind == "plant-semi":
             new = lines[:li] + [lines[li][:a] + "é " + lines[li][a:]] + lines[li + 1:]
             out.append((f"{name}:nonascii@{li+1}:{a}", new, 0, li + 1))
